@@ -292,3 +292,47 @@ theorem parseVaruint32_eq_spec (b : Bytes) (n off : Nat) (hn : n ≤ b.length) :
   | some p => simp
 
 end Sb.Proofs
+
+namespace Sb.Proofs
+open Sb Sb.Parsing
+
+theorem rd_lt (b : Bytes) (i v : Nat) (h : rd b i = .ok v) : v < 256 := by
+  unfold rd at h
+  split at h
+  · rename_i x _
+    injection h with h; rw [← h]; exact x.toNat_lt
+  · cases h
+
+theorem u16_range (b : Bytes) (off : Nat) (r : Nat × Nat) (h : parseU16 b off = .ok r) : r.1 < 65536 := by
+  unfold parseU16 at h
+  cases h1 : rd b (off + 1) with
+  | error e => rw [h1] at h; simp [bind, Except.bind] at h
+  | ok hi =>
+    cases h0 : rd b off with
+    | error e => rw [h1, h0] at h; simp [bind, Except.bind] at h
+    | ok lo =>
+      rw [h1, h0] at h
+      simp only [bind, Except.bind, pure, Except.pure] at h
+      injection h with h
+      rw [← h]
+      have := rd_lt b _ _ h1
+      have := rd_lt b _ _ h0
+      simp only [Nat.shiftLeft_eq]
+      omega
+
+/-- a parsed 16-bit signed value is in range -/
+theorem i16_range (b : Bytes) (off : Nat) (r : Int × Nat) (h : parseI16 b off = .ok r) :
+    -32768 ≤ r.1 ∧ r.1 < 32768 := by
+  unfold parseI16 at h
+  cases hu : parseU16 b off with
+  | error e => rw [hu] at h; simp [bind, Except.bind] at h
+  | ok u =>
+    rw [hu] at h
+    simp only [bind, Except.bind, pure, Except.pure] at h
+    injection h with h
+    rw [← h]
+    have := u16_range b off u hu
+    simp only [toInt16]
+    split <;> omega
+
+end Sb.Proofs
